@@ -69,6 +69,7 @@ Record st := mkSt {
   buf : list msg;               (* FifoBuffer.buffer *)
   woken : bool;                 (* a Signal/Broadcast reached the writer registered in cond.Wait *)
   done_sig : bool;              (* a token sits in batchingLoopDoneCh *)
+  released : bool;              (* FifoBuffer.released: ReleaseGoroutines has been called *)
   wg : Z;                       (* runningWorkers counter *)
   bp : bpc; wp : wpc; cp : cpc;
   delivered : list (list msg);  (* batches handed to the write function, oldest first *)
@@ -77,7 +78,7 @@ Record st := mkSt {
 }.
 
 Definition init : st :=
-  mkSt [] false [] false false 0%Z BIdle WSelect CNot [] [] false.
+  mkSt [] false [] false false false 0%Z BIdle WSelect CNot [] [] false.
 
 Inductive label := LPub (p : N) (e : event) | LB | LW | LC.
 
@@ -88,70 +89,72 @@ Definition after (d : bool) : wpc := if d then WLen else WSelect.
 (* WriteEventWithTimestamp: conversion first (an unsupported value returns before the send), then
    the channel send: panics on a closed channel, blocks (stutters) on a full one. *)
 Definition step_pub (p : N) (e : event) (s : st) : st :=
-  let '(mkSt ch cl bf wk dn g b w c dl ac pn) := s in
+  let '(mkSt ch cl bf wk dn rl g b w c dl ac pn) := s in
   match key_of e with
   | None => s
   | Some k =>
-    if cl then mkSt ch cl bf wk dn g b w c dl ac true
+    if cl then mkSt ch cl bf wk dn rl g b w c dl ac true
     else if Nlen ch <? ew_chan_cap
-         then let m := mkMsg p e k in mkSt (ch ++ [m]) cl bf wk dn g b w c dl (ac ++ [m]) pn
+         then let m := mkMsg p e k in mkSt (ch ++ [m]) cl bf wk dn rl g b w c dl (ac ++ [m]) pn
          else s
   end.
 
 Definition step_B (s : st) : st :=
-  let '(mkSt ch cl bf wk dn g b w c dl ac pn) := s in
+  let '(mkSt ch cl bf wk dn rl g b w c dl ac pn) := s in
   match b with
   | BIdle =>
     match ch with
-    | m :: r => mkSt r cl bf wk dn g (BHold m) w c dl ac pn
-    | [] => if cl then mkSt ch cl bf wk dn g BSignal w c dl ac pn else s
+    | m :: r => mkSt r cl bf wk dn rl g (BHold m) w c dl ac pn
+    | [] => if cl then mkSt ch cl bf wk dn rl g BSignal w c dl ac pn else s
     end
-  | BHold m => mkSt ch cl (bf ++ [m]) (wk || waiting w) dn g BIdle w c dl ac pn   (* Push: append, Signal *)
-  | BSignal => mkSt ch cl bf wk true g BBcast w c dl ac pn
-  | BBcast => mkSt ch cl bf (wk || waiting w) dn g BWg w c dl ac pn
-  | BWg => mkSt ch cl bf wk dn (g - 1)%Z BExit w c dl ac pn
+  | BHold m => mkSt ch cl (bf ++ [m]) (wk || waiting w) dn rl g BIdle w c dl ac pn   (* Push: append, Signal *)
+  | BSignal => mkSt ch cl bf wk true rl g BBcast w c dl ac pn
+  | BBcast => mkSt ch cl bf (wk || waiting w) dn (ew_release_sticky || rl) g BWg w c dl ac pn
+      (* ReleaseGoroutines: released = true (when the code has the flag), Broadcast *)
+  | BWg => mkSt ch cl bf wk dn rl (g - 1)%Z BExit w c dl ac pn
   | BExit => s
   end.
 
 Definition step_W (s : st) : st :=
-  let '(mkSt ch cl bf wk dn g b w c dl ac pn) := s in
+  let '(mkSt ch cl bf wk dn rl g b w c dl ac pn) := s in
   match w with
   | WSelect =>
-    if dn then mkSt ch cl bf wk false g b (if ew_drain_on_done then WLen else WWg) c dl ac pn
-    else mkSt ch cl bf wk dn g b (WPop false) c dl ac pn
+    if dn then mkSt ch cl bf wk false rl g b (if ew_drain_on_done then WLen else WWg) c dl ac pn
+    else mkSt ch cl bf wk dn rl g b (WPop false) c dl ac pn
   | WPop d =>
     match bf with
-    | [] => mkSt ch cl bf false dn g b (WWait d) c dl ac pn
-    | _ :: _ => mkSt ch cl (skipn (pop_max d) bf) wk dn g b (WSend d (firstn (pop_max d) bf)) c dl ac pn
+    | [] => if rl then mkSt ch cl bf wk dn rl g b (after d) c dl ac pn   (* released: returns nothing at once *)
+            else mkSt ch cl bf false dn rl g b (WWait d) c dl ac pn
+    | _ :: _ => mkSt ch cl (skipn (pop_max d) bf) wk dn rl g b (WSend d (firstn (pop_max d) bf)) c dl ac pn
     end
   | WWait d =>
     if wk then
       match bf with
-      | [] => mkSt ch cl bf false dn g b (after d) c dl ac pn   (* "released": returns nothing *)
-      | _ :: _ => mkSt ch cl (skipn (pop_max d) bf) false dn g b (WSend d (firstn (pop_max d) bf)) c dl ac pn
+      | [] => mkSt ch cl bf false dn rl g b (after d) c dl ac pn   (* "released": returns nothing *)
+      | _ :: _ => mkSt ch cl (skipn (pop_max d) bf) false dn rl g b (WSend d (firstn (pop_max d) bf)) c dl ac pn
       end
     else s
   | WSend d bt =>
     match bt with
-    | [] => mkSt ch cl bf wk dn g b (after d) c dl ac pn        (* sendBatch skips an empty batch *)
-    | _ :: _ => mkSt ch cl bf wk dn g b (WInWrite d) c (dl ++ [bt]) ac pn
+    | [] => mkSt ch cl bf wk dn rl g b (after d) c dl ac pn        (* sendBatch skips an empty batch *)
+    | _ :: _ => mkSt ch cl bf wk dn rl g b (WInWrite d) c (dl ++ [bt]) ac pn
     end
-  | WInWrite d => mkSt ch cl bf wk dn g b (after d) c dl ac pn
+  | WInWrite d => mkSt ch cl bf wk dn rl g b (after d) c dl ac pn
   | WLen =>
     match bf with
-    | [] => mkSt ch cl bf wk dn g b WWg c dl ac pn
-    | _ :: _ => mkSt ch cl bf wk dn g b (WPop true) c dl ac pn
+    | [] => mkSt ch cl bf wk dn rl g b WWg c dl ac pn
+    | _ :: _ => mkSt ch cl bf wk dn rl g b (WPop true) c dl ac pn
     end
-  | WWg => mkSt ch cl bf wk dn (g - 1)%Z b WExit c dl ac pn
+  | WWg => mkSt ch cl bf wk dn rl (g - 1)%Z b WExit c dl ac pn
   | WExit => s
   end.
 
 Definition step_C (s : st) : st :=
-  let '(mkSt ch cl bf wk dn g b w c dl ac pn) := s in
+  let '(mkSt ch cl bf wk dn rl g b w c dl ac pn) := s in
   match c with
-  | CNot => mkSt ch cl bf wk dn (g + 2)%Z b w CAdded dl ac pn
-  | CAdded => mkSt ch true bf wk dn g b w CClosed dl ac pn
-  | CClosed => if (g =? 0)%Z then mkSt ch cl bf wk dn g b w CReturned dl ac pn else s
+  | CNot => mkSt ch cl bf wk dn rl (g + 2)%Z b w CAdded dl ac pn
+  | CAdded => mkSt ch true bf wk dn rl g b w CClosed dl ac pn
+  | CClosed => if (g =? 0)%Z then mkSt ch cl bf wk dn rl g b w CReturned dl ac pn else s
   | CReturned => s
   end.
 
@@ -186,8 +189,11 @@ Definition pending (s : st) : list msg := inflight (wp s) ++ buf s ++ hand (bp s
 
 Definition publish_enabled (s : st) : bool := negb (closed s) && (Nlen (chan s) <? ew_chan_cap).
 
-(* the state in which Close waits for ever: the batcher has signalled, broadcast and left; the
-   writer sits in cond.Wait of the non-draining PopMultiple and nobody is left to wake it *)
+(* the state in which Close would wait for ever: the batcher has signalled, broadcast and left;
+   the writer sits in cond.Wait of the non-draining PopMultiple and nobody is left to wake it.
+   Reachable in the code before the `released` flag was added to FifoBuffer (the writer decided
+   `default:` in its select, the batcher then signalled, broadcast and left, and only then the
+   writer entered PopMultiple); unreachable now (C19_no_lost_wakeup). *)
 Definition lost_wakeup (s : st) : Prop :=
   cp s = CClosed /\ bp s = BExit /\ wp s = WWait false /\ woken s = false /\
   done_sig s = true /\ buf s = [] /\ chan s = [] /\ concat (delivered s) = accepted s.
@@ -195,9 +201,9 @@ Definition lost_wakeup (s : st) : Prop :=
 (* number of steps the three service processes can still make without a new publication *)
 Definition b_rank (s : st) : nat :=
   match bp s with
-  | BIdle => 2 * length (chan s) + 4
-  | BHold _ => 2 * length (chan s) + 5
-  | BSignal => 3 | BBcast => 2 | BWg => 1 | BExit => 0
+  | BIdle => 2 * length (chan s) + 7
+  | BHold _ => 2 * length (chan s) + 8
+  | BSignal => 6 | BBcast => 2 | BWg => 1 | BExit => 0
   end.
 Definition w_rank (w : wpc) : nat :=
   match w with
@@ -214,7 +220,12 @@ Definition credits (s : st) : nat :=
   + length (chan s) + length (hand (bp s))
   + match bp s with BIdle | BHold _ | BSignal => 2 | BBcast => 1 | _ => 0 end
   + b2n (woken s) + b2n (done_sig s).
-Definition measure (s : st) : nat := b_rank s + 6 * credits s + w_rank (wp s) + c_rank (cp s).
+(* a writer that is about to enter PopMultiple while the done token is present may come back
+   empty-handed once (released buffer) before it consumes the token *)
+Definition w_extra (s : st) : nat :=
+  if done_sig s then match wp s with WPop false => 3 | _ => 0 end else 0.
+Definition measure (s : st) : nat :=
+  b_rank s + 6 * credits s + w_rank (wp s) + w_extra s + c_rank (cp s).
 
 (* ---------- the coarse schedules the harness can force ---------- *)
 (* The harness holds the writer inside the write function (a gate), publishes, lets the batcher
@@ -322,7 +333,10 @@ Inductive c19_case :=
 Definition corr19 (c : c19_case) : bool :=
   match c with
   | CSched ops obs => list_eqb opobs_eqb (run_model ops) obs
-  | CRace _ _ _ _ => true   (* both outcomes are behaviours of the model (C19_close_can_hang) *)
+  | CRace _ _ hangs _ =>
+    (* with the released flag the model has no hanging schedule (C19_close_terminates); without
+       it both outcomes are behaviours of the model *)
+    if ew_release_sticky then hangs =? 0 else true
   end.
 
 (* ---------- the property evaluated on what the implementation did ---------- *)
